@@ -76,14 +76,16 @@ class FloatQuot:
 
 
 class Bytes:
-    """bytes / bytearray / memoryview: concrete length, int-like cells (0..255 enforced on store)."""
-    __slots__ = ("items", "mutable", "serial", "kind")
+    """bytes / bytearray / memoryview: concrete length, int-like cells (0..255 enforced on store).
+    A memoryview is modelled as an immutable copy that remembers the object it was taken from (`base`)."""
+    __slots__ = ("items", "mutable", "serial", "kind", "base")
 
-    def __init__(self, items, mutable, serial=0, kind=None):
+    def __init__(self, items, mutable, serial=0, kind=None, base=None):
         self.items = list(items)
         self.mutable = mutable
         self.serial = serial
         self.kind = kind or ("bytearray" if mutable else "bytes")
+        self.base = base
 
     def __repr__(self):
         return f"Bytes<{self.kind}>({self.items})"
